@@ -64,12 +64,14 @@ def gen_scenario(rng, allow_extras):
         if rng.random() < 0.3:     # a -> b -> a inside one write latency
             script.append([t + rng.choice([20, 40, 60, 90]), 'source', p, ports[p]['value']])
     extras = False
-    if allow_extras and rng.random() < 0.25:
+    if allow_extras and rng.random() < 0.3:
         extras = True
-        p = rng.choice(sources)
-        script.append([t + 200, 'disable', p])
-        script.append([t + 400, 'source', rng.choice(sources), rng.randint(6, 9)])
-        script.append([t + 700, 'enable', p])
+        p = rng.choice(sources + list(followers)) if rng.random() < 0.4 else rng.choice(sources)
+        t += rng.choice([200, 210, 260, 500])
+        script.append([t, 'disable', p])
+        script.append([t + rng.choice([30, 200, 400]), 'source', rng.choice(sources), rng.randint(6, 9)])
+        if rng.random() < 0.8:
+            script.append([t + rng.choice([60, 500, 700, 730]), 'enable', p])
     return {'ports': ports, 'script': script, 'tick_ms': 50, 'settle_ms': 6000, 'extras': extras}
 
 
@@ -130,7 +132,7 @@ def coq_event(ev):
     k = ev[0]
     if k in ('PassBegin', 'PassEnd'):
         return k
-    if k in ('PassRead', 'Eval', 'WriteEnd'):
+    if k in ('PassRead', 'PassSkip', 'Eval', 'WriteEnd', 'Enable', 'Disable'):
         return '(%s %d%%nat)' % (k, ev[1])
     if k == 'SourceSet':
         return '(SourceSet %d%%nat %s)' % (ev[1], oz(ev[2]))
@@ -140,6 +142,32 @@ def coq_event(ev):
 
 
 HEADER = 'From QT Require Import C01.Run.\nOpen Scope Z_scope.\n'
+
+
+def with_skips(trace, n):
+    """insert PassSkip events: update() walks the ports in registry order and skips the disabled ones; the decision for a
+    port is taken synchronously right after the previous pass event (PassBegin or the previous port's read)"""
+    out = []
+    expected = None          # index of the next port the running pass will look at
+    last_pass_pos = None     # position in out right after which skip decisions were taken
+    for ev in trace:
+        k = ev[0]
+        if k == 'PassBegin':
+            out.append(ev)
+            expected, last_pass_pos = 0, len(out)
+        elif k == 'PassRead' and expected is not None:
+            skipped = [['PassSkip', i] for i in range(expected, ev[1])]
+            out[last_pass_pos:last_pass_pos] = skipped
+            out.append(ev)
+            expected, last_pass_pos = ev[1] + 1, len(out)
+        elif k == 'PassEnd' and expected is not None:
+            skipped = [['PassSkip', i] for i in range(expected, n)]
+            out[last_pass_pos:last_pass_pos] = skipped
+            out.append(ev)
+            expected, last_pass_pos = None, None
+        else:
+            out.append(ev)
+    return out
 
 
 def check_batch(ctx, res, scenarios, tag):
@@ -160,17 +188,18 @@ def check_batch(ctx, res, scenarios, tag):
         d['with_enable_disable'] = d.get('with_enable_disable', 0) + int(bool(sc.get('extras')))
         init_vals = [p['value'] for p in sc['ports']]
         # trace acceptance only for scenarios inside the model's alphabet
-        evs = [coq_event(e) for e in r['trace']]
-        if all(e is not None for e in evs) and not sc.get('extras'):
+        evs = [coq_event(e) for e in with_skips(r['trace'], len(sc['ports']))]
+        if all(e is not None for e in evs):
             model_rows.append('(%s, [%s], %s)' % (
                 coq.lst(init_vals, oz), '; '.join(evs),
                 coq.lst(r['final'], lambda f: '(%s, %s)' % (oz(f[0]), oz(f[1])))))
             model_meta.append((sc, r))
         # the specification, on what the implementation reports at quiescence (all ports enabled, no transforms in force)
-        if r['quiescent'] and all(r['enabled']) and not any(r['twrite']):
-            spec_rows.append('(%s, %s)' % (
+        if r['quiescent'] and not any(r['twrite']):
+            spec_rows.append('(%s, %s, %s)' % (
                 coq.lst(r['exprs'], lambda t: 'None' if t is None else '(Some %s)' % parse_expr(t)),
-                coq.lst(r['final'], lambda f: '(%s, %s)' % (oz(f[0]), oz(f[1])))))
+                coq.lst(r['final'], lambda f: '(%s, %s)' % (oz(f[0]), oz(f[1]))),
+                coq.lst(r['enabled'], coq.boolean)))
             spec_meta.append((sc, r))
         elif not r['quiescent']:
             d['not_quiescent'] = d.get('not_quiescent', 0) + 1
